@@ -23,22 +23,7 @@ var overrunKinds = []string{"exact-window", "plus1", "plus-chunk", "many-windows
 func init() {
 	families["overrun"] = famOverrun
 	listers["C06"] = func(tier string, seed int64) []Case {
-		var out []Case
-		rng := rand.New(rand.NewSource(seed*1999 + 6))
-		reps := 2
-		if tier == "thorough" {
-			reps = 60
-		}
-		for r := 0; r < reps; r++ {
-			for _, k := range overrunKinds {
-				for _, dir := range []string{"forward", "reverse"} {
-					if k == "flood-32MiB" && r > 0 && r%10 != 0 {
-						continue
-					}
-					out = append(out, Case{Family: "overrun", Seed: rng.Int63(), Cfg: WorldCfg{Dir: dir}, S: map[string]string{"kind": k}})
-				}
-			}
-		}
+		out := overrunCases(tier, seed)
 		// client role overruns
 		for _, c := range listers["C09"](tier, seed) {
 			if c.Family == "rawsrv" && c.S["dev"] == "overrun" {
@@ -65,6 +50,26 @@ func init() {
 		out = append(out, stratify(listers["C04"](tier, seed), 8)...)
 		return out
 	}
+}
+
+func overrunCases(tier string, seed int64) []Case {
+	var out []Case
+	rng := rand.New(rand.NewSource(seed*1999 + 6))
+	reps := 2
+	if tier == "thorough" {
+		reps = 60
+	}
+	for r := 0; r < reps; r++ {
+		for _, k := range overrunKinds {
+			for _, dir := range []string{"forward", "reverse"} {
+				if k == "flood-32MiB" && r > 0 && r%10 != 0 {
+					continue
+				}
+				out = append(out, Case{Family: "overrun", Seed: rng.Int63(), Cfg: WorldCfg{Dir: dir}, S: map[string]string{"kind": k}})
+			}
+		}
+	}
+	return out
 }
 
 func stratify(cs []Case, every int) []Case {
